@@ -6,7 +6,8 @@ Facts about DECODED values needed to frame them again (Props/C04Dec.lean, Props/
 * which kinds the PDU decoders return (`Response.Decoded.kinds`, `Request.Decoded.kinds`);
 * a decoded custom value carries the decoder's input verbatim: its image IS the input
   (`Response.decode_custom_image`, `Request.decode_custom_image`);
-* a decoded register-write request holds exactly the bytes its count promises (`Request.Decoded.dataExact`);
+* a decoded register-write request holds exactly the bytes its count promises (`Request.Decoded.dataExact`;
+  for decoded register responses: `Response.Decoded.dataExact` in Lemmas/Coherent.lean);
 * the image of a standard request starts with its function code (`req_image_head`).
 -/
 namespace Modbus.DecodedAdu
@@ -73,7 +74,7 @@ theorem Response.decode_custom_image {b : Bytes} {c : FunctionCode} {d : Bytes}
     by_cases hb : b[1].toNat + 2 > b.length
     · rw [if_pos hb] at h; cases h
     rw [if_neg hb] at h
-    have hs : 2 ≤ 2 + b[1].toNat ∧ 2 + b[1].toNat ≤ b.length := by omega
+    have hs : 2 ≤ 2 + b[1].toNat / 2 * 2 ∧ 2 + b[1].toNat / 2 * 2 ≤ b.length := by omega
     simp only [slice, if_pos hs, Res.bind'_ok, Res.ok.injEq, reduceCtorEq] at h
   case writeSingleCoil =>
     rw [read16_eq_ok (b := b) (i := 1) (by omega)] at h
